@@ -146,6 +146,10 @@ def run(env):
     res = env.drive("roundtrip", cw.text())
     env.require_complete(res, "roundtrip")
     mr = env.pmap(monitor, res.sessions, workload="roundtrip")
+    # the same workload on the build a user ships (no debug assertions, no overflow checks)
+    res_f = env.drive("roundtrip", cw.text(), build="fast")
+    env.require_complete(res_f, "roundtrip/fast")
+    env.pmap(monitor, res_f.sessions, workload="roundtrip")
     cells = {k for k in mr.counts if k.startswith("cell:")}
     env.extra_cov["suite_mode_cells_covered"] = len(cells)
     env.extra_cov["sessions"] = len(res.sessions)
